@@ -670,6 +670,11 @@ def handle (j : Json) : Except String Json := do
       ("pyComputed", str (Case.ident Generated.reserved_python_codes (Case.str "_") sn)),
       ("cppWriterMethods", Json.arr ((Case.cppWriterMethods s true).map str).toArray),
       ("cppReaderMethods", Json.arr ((Case.cppReaderMethods s).map str).toArray)])
+  | "members_ok" =>
+    -- the member-name rules of the validator for one record / protocol: names in declaration order (fields, then computed fields)
+    let names ← (← (← j.getObjVal? "names").getArr?).toList.mapM (·.getStr?)
+    if !names.all (fun n => (Case.str n).all Case.inAlphabet) then pure (Json.mkObj [("unmodelled", Json.bool true)]) else
+    pure (Json.mkObj [("ok", Json.bool (Case.membersOk (names.map Case.str) [] []))])
   | "narrow" =>
     let b ← jNat (← j.getObjVal? "bits")
     pure (Json.mkObj [("f32", jn (Json.narrow b))])
